@@ -62,7 +62,26 @@ pub fn drive(seed: u64, outdir: &str, thorough: bool) {
   const N_LONELY: usize = 3;
   let n_trees = n_trees + n_big + N_LONELY + 1;
   let mixed_tree = n_trees - 1;
-  for tree in 0..n_trees {
+  // one more tree after all the others: files of four languages searched WITHOUT -l by a pattern that only some of the
+  // languages can parse (`puts $A`: Ruby and Bash yes, JavaScript and Python no); a file whose language rejects the
+  // pattern says nothing about the next file
+  let poly_tree = n_trees;
+  let n_trees_all = n_trees + 1;
+  for tree in 0..n_trees_all {
+    if tree == poly_tree {
+      let mut files: Vec<(String, Vec<u8>, &'static str)> = vec![];
+      for i in 0..28 {
+        let (ext, body) = match i % 4 { 0 => ("rb", format!("puts {i}\n")), 1 => ("js", format!("puts({i});\n")), 2 => ("sh", format!("puts {i}\n")), _ => ("py", format!("puts({i})\n")) };
+        // a file in whose language the pattern does not parse is counted as skipped, like an unreadable one
+        files.push((format!("{}p{i}.{ext}", ["", "a/", "b/c/"][i % 3]), body.into_bytes(), if i % 2 == 1 { "pattern-rejected" } else { "ok" }));
+      }
+      for &j in &[1usize, 2, 4, 8] {
+        for rep in 0..2 {
+          jobs.push((tree, files.clone(), j, rep, rng.next() % 100000, false));
+        }
+      }
+      continue;
+    }
     let mixed = tree == mixed_tree;
     let lonely = !mixed && tree >= n_trees - 1 - N_LONELY;
     let big = !mixed && !lonely && tree >= n_trees - 1 - N_LONELY - n_big;
@@ -140,7 +159,7 @@ pub fn drive(seed: u64, outdir: &str, thorough: bool) {
   }
   // per-file reference runs are computed once per tree
   let mut expected: BTreeMap<usize, (Vec<String>, usize)> = BTreeMap::new();
-  for tree in 0..n_trees {
+  for tree in 0..n_trees_all {
     let files = &jobs.iter().find(|j| j.0 == tree).unwrap().1;
     let p = Project::new(&format!("{scratch}/ref{tree}"));
     for (path, content, _) in files {
@@ -154,7 +173,8 @@ pub fn drive(seed: u64, outdir: &str, thorough: bool) {
         // the name cannot be passed on a command line as text: its two findings are written down
         return vec![format!("{path}:0:6"), format!("{path}:8:14")];
       }
-      let o = if tree == mixed_tree { run_sgv(&["scan", "--json=stream", path], &p.root, None, 60, &[]) }
+      let o = if tree == poly_tree { run_sgv(&["run", "-p", "puts $A", "--json=stream", path], &p.root, None, 60, &[]) }
+        else if tree == mixed_tree { run_sgv(&["scan", "--json=stream", path], &p.root, None, 60, &[]) }
         else { run_sgv(&["run", "-p", "foo($A)", "-l", "js", "--json=stream", path], &p.root, None, 60, &[]) };
       json_lines(&o.stdout).iter().map(key).collect::<Vec<_>>()
     });
@@ -175,8 +195,9 @@ pub fn drive(seed: u64, outdir: &str, thorough: bool) {
     let sched_s = sched.to_string();
     // both workers share run_worker: `sg run` (pattern) and `sg scan` (rule file); every other job scans
     let mixed = *tree == mixed_tree;
-    let lonely = !mixed && *tree >= n_trees - 1 - N_LONELY;
-    let use_scan = idx % 2 == 1 || lonely || mixed;
+    let poly = *tree == poly_tree;
+    let lonely = !mixed && !poly && *tree >= n_trees - 1 - N_LONELY;
+    let use_scan = !poly && (idx % 2 == 1 || lonely || mixed);
     if mixed {
       setup_mixed(&p);
     } else if use_scan {
@@ -185,7 +206,8 @@ pub fn drive(seed: u64, outdir: &str, thorough: bool) {
     // `--inspect entity` adds one trace line per file (written by the walker threads themselves, through a shared
     // lock): it must not change what is found; the summary line is printed at both levels
     let inspect = if idx % 3 == 0 { "summary" } else { "entity" };
-    let args: Vec<&str> = if mixed { vec!["scan", "--json=stream", "--inspect", inspect, "-j", &jn, "."] }
+    let args: Vec<&str> = if poly { vec!["run", "-p", "puts $A", "--json=stream", "--inspect", inspect, "-j", &jn, "."] }
+      else if mixed { vec!["scan", "--json=stream", "--inspect", inspect, "-j", &jn, "."] }
       else if use_scan { vec!["scan", "-r", ".verif-rule.yml", "--json=stream", "--inspect", inspect, "-j", &jn, "."] }
       else { vec!["run", "-p", "foo($A)", "-l", "js", "--json=stream", "--inspect", inspect, "-j", &jn, "."] };
     // lonely trees alternate between perturbed and unperturbed schedules
